@@ -170,8 +170,12 @@ type clu8Cluster struct {
 	t     *testing.T
 	Net   *clu8Net
 	Nodes []*clu8Node
-	// Tune is applied to every Store before Open.
+	// Tune is applied to every Store before Open (after the default timings below).
 	Tune func(s *Store)
+	// FastRaft keeps raft's default timings (1 s heartbeat/election, 500 ms leader lease). By default
+	// every node gets generous timings so that a loaded machine does not make a healthy leader lose
+	// its lease; scenarios that need quick elections set FastRaft and must tolerate leader changes.
+	FastRaft bool
 }
 
 func clu8NewCluster(t *testing.T) *clu8Cluster {
@@ -202,6 +206,9 @@ func (c *clu8Cluster) open(n *clu8Node, addr string) error {
 	s := New(&Config{DBConf: cfg, Dir: n.Dir, ID: n.Name}, ly)
 	if s == nil {
 		return fmt.Errorf("store.New returned nil")
+	}
+	if !c.FastRaft {
+		s.HeartbeatTimeout, s.ElectionTimeout, s.LeaderLeaseTimeout = 2*time.Second, 2*time.Second, 2*time.Second
 	}
 	if c.Tune != nil {
 		c.Tune(s)
@@ -256,7 +263,7 @@ func (c *clu8Cluster) Bootstrap(n *clu8Node) error {
 	if err := n.S.Bootstrap(NewServer(n.Name, n.Addr, true)); err != nil {
 		return err
 	}
-	_, err := n.S.WaitForLeader(30 * time.Second)
+	_, err := n.S.WaitForLeader(120 * time.Second)
 	return err
 }
 
@@ -419,5 +426,117 @@ func clu8Guard(d time.Duration, f func()) (bool, string) {
 			dump = dump[:16000]
 		}
 		return false, dump
+	}
+}
+
+// clu8ExecLeader executes idempotent statements on whoever is leader, retrying while leadership
+// is moving (a leader may step down right after a membership change on a loaded machine).
+func clu8ExecLeader(c *clu8Cluster, timeout time.Duration, stmts ...string) error {
+	deadline := time.Now().Add(timeout)
+	var err error
+	for {
+		l := c.Leader(10 * time.Second)
+		if l != nil {
+			if err = clu8Exec(l.S, stmts...); err == nil {
+				return nil
+			}
+		} else {
+			err = errors.New("no leader")
+		}
+		if time.Now().After(deadline) {
+			return err
+		}
+		time.Sleep(100 * time.Millisecond)
+	}
+}
+
+// clu8JoinRetry joins n through whoever is leader, retrying on ErrNotLeader.
+func clu8JoinRetry(c *clu8Cluster, n *clu8Node, voter bool, timeout time.Duration) error {
+	deadline := time.Now().Add(timeout)
+	var err error
+	for {
+		l := c.Leader(10 * time.Second)
+		if l != nil {
+			if err = l.S.Join(joinRequest(n.Name, n.Addr, voter)); err == nil {
+				return nil
+			}
+		} else {
+			err = errors.New("no leader")
+		}
+		if time.Now().After(deadline) {
+			return err
+		}
+		time.Sleep(100 * time.Millisecond)
+	}
+}
+
+// ---- abandoning a case instead of failing the check -------------------------------------
+
+type clu8SkipErr struct{ msg string }
+
+// clu8Skip abandons the running case (see clu8Case): the cluster could not be brought into the
+// state the case needs (typically: leadership kept moving on an overloaded machine). That is
+// not a verdict on rqlite.
+func clu8Skip(format string, a ...interface{}) { panic(clu8SkipErr{fmt.Sprintf(format, a...)}) }
+
+// clu8Transient says whether an error only means "leadership is moving / not settled yet".
+func clu8Transient(err error) bool {
+	if err == nil {
+		return false
+	}
+	if errors.Is(err, ErrNotLeader) || errors.Is(err, ErrNotReady) || errors.Is(err, raft.ErrLeadershipLost) ||
+		errors.Is(err, raft.ErrLeadershipTransferInProgress) || errors.Is(err, raft.ErrEnqueueTimeout) || errors.Is(err, raft.ErrNotLeader) {
+		return true
+	}
+	m := err.Error()
+	for _, k := range []string{"not leader", "leadership lost", "leader not found", "timed out enqueuing", "leadership transfer in progress", "no leader"} {
+		if strings.Contains(m, k) {
+			return true
+		}
+	}
+	return false
+}
+
+// clu8Case runs one case (history / scenario) under a watchdog. A case that calls clu8Skip, or
+// does not finish within d, is ABANDONED: noted and counted, not a failure. Returns true if the
+// case ran to completion. clu8Floor turns "most cases abandoned" into a harness failure.
+func clu8Case(rep *vfReport, name string, d time.Duration, f func()) bool {
+	rep.Count("cases-started")
+	skipped := ""
+	fin, dump := clu8Guard(d, func() {
+		defer func() {
+			if r := recover(); r != nil {
+				if se, ok := r.(clu8SkipErr); ok {
+					skipped = se.msg
+					return
+				}
+				panic(r)
+			}
+		}()
+		f()
+	})
+	switch {
+	case !fin:
+		rep.Note("%s: did not finish within %s and was abandoned; goroutines: %s", name, d, dump)
+		rep.Count("cases-abandoned")
+		rep.Count("cases-abandoned:" + name + ":watchdog")
+		return false
+	case skipped != "":
+		rep.Note("%s: abandoned: %s", name, skipped)
+		rep.Count("cases-abandoned")
+		rep.Count("cases-abandoned:" + name)
+		return false
+	}
+	return true
+}
+
+// clu8Floor fails the test when more than half of the cases were abandoned: better to say
+// "the harness could not run" than to report success having checked nothing.
+func clu8Floor(t *testing.T, rep *vfReport) {
+	rep.mu.Lock()
+	started, abandoned := rep.Distribution["cases-started"], rep.Distribution["cases-abandoned"]
+	rep.mu.Unlock()
+	if started > 0 && abandoned*2 > started {
+		t.Fatalf("harness could not run: %d of %d cases were abandoned (cluster could not be kept stable)", abandoned, started)
 	}
 }
